@@ -1,11 +1,12 @@
 CONSTANTS S = 6
 NWMAX = 8
-KMAX = 31
-FMAX = 2
+KMAX = 48
+FMAX = 3
 INIT Init
 NEXT Next
 CHECK_DEADLOCK FALSE
 INVARIANT I_AlgoIsMinimal
 INVARIANT I_NeverAboveCap
+INVARIANT I_CapKeepsIntegerPart
 INVARIANT I_MinimalityDirect
 INVARIANT Emit
